@@ -1,4 +1,83 @@
-import RV.Model.Sync
+import RV.Proofs.Sync
+/-
+  C09 — deferred synchronisation never changes the physics.
+
+  Statements are about the flag machines of RV/Model/Sync.lean — the same functions the
+  driver `drv_c09` runs to predict the primitive-call lists that rv/c09.py replays through
+  the real exported C primitives — with the floating-point kernels left *uninterpreted*
+  (`Sem`): every theorem of the "bitwise" part therefore holds for IEEE doubles.
+-/
+set_option linter.unusedVariables false
 namespace RV.Sync
-theorem c09_stub : initF (initF ⟨true, false, false⟩) = initF ⟨true, false, false⟩ := rfl
+variable {T PJ X V A : Type}
+
+/-! ### bitwise part: pure dataflow, no algebraic hypothesis -/
+
+/-- With `keep_unsynchronized`, `synchronize` leaves the internal coordinates `p_jh` untouched
+    and changes no flag (beyond the allocation bookkeeping every entry point does). -/
+theorem c09_whfast_keep_sync_preserves_internal (S : Sem T PJ X V A) (c : Config)
+    (hk : c.keep = true) (x : Flags × St PJ X V A) :
+    (apply S c .synchronize x).2.pj = x.2.pj ∧ (apply S c .synchronize x).1 = initF x.1 ∧
+    (x.1.allocated = true → (apply S c .synchronize x).1 = x.1) := by
+  rw [apply_sync]
+  refine ⟨exec_sync_keep_pj S c hk _ _, syncOps_keep_flags c hk _, fun h => ?_⟩
+  rw [syncOps_keep_flags c hk, initF_of_allocated h]
+
+/-- Diagnostics / copies / snapshots (`read`) do not touch anything. -/
+theorem c09_whfast_read_is_identity (S : Sem T PJ X V A) (c : Config) (x : Flags × St PJ X V A) :
+    apply S c .read x = x := rfl
+
+/-- **Interleaving theorem.**  `keep_unsynchronized = 1`, `safe_mode = 0`, any kernel, corrector,
+    corrector2, coordinate system, any initial flags and state: for every sequence `σ` of steps,
+    synchronisations and read-only calls, the internal coordinates and the flags after `σ` are
+    those of the run that performs only the steps of `σ`; and what `synchronize` then shows the
+    user (positions, velocities) is the same too.  No hypothesis on the primitives. -/
+theorem c09_whfast_keep_unsynchronized_bitwise (S : Sem T PJ X V A) (c : Config)
+    (hk : c.keep = true) (hs : c.safe = false) (σ : List (Op (X × V)))
+    (hσ : ∀ o ∈ σ, o.benign = true) (x : Flags × St PJ X V A) :
+    let a := run S c σ x
+    let b := run S c (σ.filter Op.isStep) x
+    a.2.pj = b.2.pj ∧ initF a.1 = initF b.1 ∧
+    (apply S c .synchronize a).1 = (apply S c .synchronize b).1 ∧
+    (apply S c .synchronize a).2.pj = (apply S c .synchronize b).2.pj ∧
+    (apply S c .synchronize a).2.pos = (apply S c .synchronize b).2.pos ∧
+    (apply S c .synchronize a).2.vel = (apply S c .synchronize b).2.vel := by
+  intro a b
+  have h := rel_run S c hk hs σ hσ x x (Rel.refl x)
+  exact ⟨h.2.1, h.1, rel_sync_obs S c h⟩
+
+/-- `synchronize ∘ synchronize = synchronize` on flags, internal coordinates, positions and
+    velocities — every option combination, every flag state. -/
+theorem c09_whfast_synchronize_idempotent (S : Sem T PJ X V A) (c : Config)
+    (x : Flags × St PJ X V A) :
+    let y := apply S c .synchronize x
+    let z := apply S c .synchronize y
+    z.1 = y.1 ∧ z.2.pj = y.2.pj ∧ z.2.pos = y.2.pos ∧ z.2.vel = y.2.vel := by
+  intro y z
+  cases hk : c.keep
+  · -- without keep_unsynchronized the first call sets is_synchronized: the second does nothing
+    have hy : y.1.isSync = true ∧ y.1.allocated = true := by
+      show (syncOps c x.1).2.isSync = true ∧ (syncOps c x.1).2.allocated = true
+      cases hs : (initF x.1).isSync
+      · rw [syncOps_unsync c x.1 hs]; simp [hk, initF_allocated]
+      · rw [syncOps_sync c x.1 hs]; exact ⟨hs, initF_allocated _⟩
+    have e : syncOps c y.1 = ([.init], y.1) := by
+      have := syncOps_sync c y.1 (by rw [initF_of_allocated hy.2]; exact hy.1)
+      rw [this, initF_of_allocated hy.2]
+    show (syncOps c y.1).2 = y.1 ∧ (exec S (syncOps c y.1).1 y.2).pj = _ ∧
+      (exec S (syncOps c y.1).1 y.2).pos = _ ∧ (exec S (syncOps c y.1).1 y.2).vel = _
+    rw [e]; exact ⟨rfl, rfl, rfl, rfl⟩
+  · have h := rel_sync_obs S c (rel_sync S c hk x)
+    -- `h` compares sync x with sync (sync x)
+    exact ⟨h.1.symm, h.2.1.symm, h.2.2.1.symm, h.2.2.2.symm⟩
+
+/-- … and without `keep_unsynchronized` the second call emits no primitive at all. -/
+theorem c09_whfast_synchronize_twice_no_primitives (c : Config) (hk : c.keep = false) (f : Flags) :
+    (syncOps c (syncOps c f).2).1 = [.init] := by
+  have hy : (syncOps c f).2.isSync = true ∧ (syncOps c f).2.allocated = true := by
+    cases hs : (initF f).isSync
+    · rw [syncOps_unsync c f hs]; simp [hk, initF_allocated]
+    · rw [syncOps_sync c f hs]; exact ⟨hs, initF_allocated _⟩
+  rw [syncOps_sync c _ (by rw [initF_of_allocated hy.2]; exact hy.1)]
+
 end RV.Sync
